@@ -44,6 +44,7 @@ func (g *customGen[V]) maybeValue(t *T) (V, bool) {
 	defer func() {
 		if r := recover(); r != nil {
 			if _, ok := r.(invalidData); !ok {
+				t.cleanupAfterFailure()
 				panic(r)
 			}
 			t.cleanup()
